@@ -20,7 +20,22 @@ every script-visible operation answers from it:
 * `TempDir`, `UserHomeDir`, `UserCacheDir`, `UserConfigDir`, `Hostname`, `Getpid`, `Getuid`, `Args`
   return the configured values (the three directory getters fail when nothing was configured);
 * users and groups cannot be configured from outside the package (unexported fields), so
-  `CurrentUser`/`Lookup…` fail.
+  `CurrentUser`/`Lookup…` fail — except for the zero `VirtualUser`/`VirtualGroup` a host can still
+  allocate (`WithCurrentUser(&VirtualUser{})`): every field of it is the empty string and it is found
+  under the empty name and id only;
+* `Exit(code)` calls the function given with `WithExitHandler` if there is one and otherwise does
+  **nothing**: the exit is absorbed by the virtual OS.  What the script sees is decided by
+  `modules/os.Exit`: `os.exit()` and `os.exit(0)` return nil and the script goes on; `os.exit(n)`
+  with `n ≠ 0` and `os.exit(err)` (code 1) end the script with a fatal evaluation error *after* the
+  `Exit` call; a wrong argument type is an ordinary (catchable) type error and more than one
+  argument a fatal arguments error, both without any `Exit` call;
+* `Stdin`/`Stdout`/`Stderr` are the files given with `WithStdin`/`WithStdout`/`WithStderr`; without
+  them a `NilFile` (reads as empty, swallows writes).
+
+The only way a method of `VirtualOS` could reach the real process is a use of an OS-touching member
+of a Go package inside `os/virtual.go` (and the files of the objects it hands out); the extractor
+lists those uses on every run (`VSinks`) and the process-level part of the model is parameterised
+by that table: `Exit` terminates the real process exactly if the table says its body can.
 
 **The model has no parameter that describes the real process** (its working directory, environment,
 temp directory, pid, host name, users): `vrun` is a function of the host's configuration and of the
@@ -45,15 +60,62 @@ structure Cfg where
   args : List Path
   /-- mount targets (keys of the mount table are the targets) -/
   mounts : List Path
+  /-- `WithExitHandler` was given (the default is none) -/
+  exitHandler : Bool := false
+  /-- content of the file given with `WithStdin` (a `NilFile`, which reads as empty, without it) -/
+  stdin : Path := []
+  /-- `WithStdout` / `WithStderr` were given (a `NilFile`, which swallows writes, without them) -/
+  stdout : Bool := false
+  stderr : Bool := false
+  /-- `WithCurrentUser(&VirtualUser{})` / `WithGroup(&VirtualGroup{})`: the zero user / group -/
+  user : Bool := false
+  group : Bool := false
   deriving Repr
 
 /-- the mutable part of a `VirtualOS` -/
 structure St where
   cwd : Path
   env : List (Path × Path)
+  /-- what is left to read of the stdin file the `VirtualOS` holds -/
+  stdin : Path := []
+  /-- everything the script wrote to the stdout / stderr file the `VirtualOS` holds -/
+  out : Path := []
+  err : Path := []
+  /-- the codes of all calls of `VirtualOS.Exit`, oldest first -/
+  exits : List Int := []
   deriving Repr, DecidableEq
 
-def Cfg.init (c : Cfg) : St := { cwd := c.cwd, env := c.env }
+def Cfg.init (c : Cfg) : St := { cwd := c.cwd, env := c.env, stdin := c.stdin }
+
+/-- the argument forms of `os.exit` -/
+inductive ExitArg where
+  /-- `os.exit()` -/
+  | none
+  /-- `os.exit(n)` -/
+  | code (n : Int)
+  /-- `os.exit(err)` for an error value -/
+  | err
+  /-- `os.exit(x)` for any other type -/
+  | badType
+  /-- `os.exit(x, y, …)` -/
+  | tooMany
+  deriving Repr, DecidableEq
+
+/-- the code `modules/os.Exit` passes to the OS, if it calls `Exit` at all -/
+def ExitArg.call : ExitArg → Option Int
+  | .none => some 0
+  | .code n => some n
+  | .err => some 1
+  | .badType => Option.none
+  | .tooMany => Option.none
+
+/-- the script ends at this call with a fatal error (`try` does not catch it) -/
+def ExitArg.aborts : ExitArg → Bool
+  | .none => false
+  | .code n => n != 0
+  | .err => true
+  | .badType => false
+  | .tooMany => true
 
 /-- the script-visible operations (one constructor per way of using the state) -/
 inductive VOp where
@@ -77,6 +139,21 @@ inductive VOp where
   | mkdirTemp (dir pat : Path)
   /-- an operation whose answer does not depend on the modelled state (`print`, `os.stdout.write`, …) -/
   | opaque
+  /-- `os.exit(…)` -/
+  | exit (a : ExitArg)
+  /-- `string(os.stdin.read())` -/
+  | stdinRead
+  /-- `os.stdout.write(t)` / `os.stderr.write(t)` -/
+  | stdoutWrite (t : Path)
+  | stderrWrite (t : Path)
+  /-- `print(…)`/`printf(…)` producing the text `t` (newline included) -/
+  | print (t : Path)
+  /-- `os.current_user().home_dir` -/
+  | currentUser
+  /-- `os.lookup_user(x).home_dir` / `os.lookup_uid(x).username` -/
+  | lookupUser (x : Path)
+  /-- `os.lookup_group(x).gid` / `os.lookup_gid(x).name` -/
+  | lookupGroup (x : Path)
   deriving Repr, DecidableEq
 
 /-- what the script observes -/
@@ -97,6 +174,8 @@ inductive Out where
   | temp (target tmp pat : Path)
   /-- not modelled -/
   | any
+  /-- the script ends here with a fatal evaluation error; nothing after this operation runs -/
+  | abort
   deriving Repr, DecidableEq
 
 def envSet (e : List (Path × Path)) (k v : Path) : List (Path × Path) :=
@@ -121,6 +200,11 @@ def next (s : St) : VOp → St
   | .chdir d => { s with cwd := d }
   | .setenv k v => { s with env := envSet s.env k v }
   | .unsetenv k => { s with env := envDel s.env k }
+  | .exit a => { s with exits := s.exits ++ a.call.toList }
+  | .stdinRead => { s with stdin := [] }
+  | .stdoutWrite t => { s with out := s.out ++ t }
+  | .stderrWrite t => { s with err := s.err ++ t }
+  | .print t => { s with out := s.out ++ t }
   | _ => s
 
 /-- what an operation answers in state `s` -/
@@ -148,6 +232,14 @@ def out (c : Cfg) (s : St) : VOp → Out
       | some m => .temp m.1 c.tmp pat
       | none => .err
   | .opaque => .any
+  | .exit a => if a.aborts then .abort else if a.call.isSome then .nil else .err
+  | .stdinRead => .str s.stdin
+  | .stdoutWrite t => .int t.length
+  | .stderrWrite t => .int t.length
+  | .print _ => .nil
+  | .currentUser => if c.user then .str [] else .err
+  | .lookupUser x => if c.user && x.isEmpty then .str [] else .err
+  | .lookupGroup x => if c.group && x.isEmpty then .str [] else .err
 
 /-- the state after a sequence of operations -/
 def stAfter (s : St) : List VOp → St
@@ -177,5 +269,79 @@ def varOf (v0 : Path) (k : Path) : List VOp → Path
   | .setenv k' v :: os => if k' = k then varOf v k os else varOf v0 k os
   | .unsetenv k' :: os => if k' = k then varOf [] k os else varOf v0 k os
   | _ :: os => varOf v0 k os
+
+/-! ## Process level: where a script ends, what the host and the real process see -/
+
+def VOp.aborts : VOp → Bool
+  | .exit a => a.aborts
+  | _ => false
+
+/-- the operations of a script that are executed: everything up to and including the first one that
+    ends the script -/
+def live : List VOp → List VOp
+  | [] => []
+  | o :: os => if o.aborts then [o] else o :: live os
+
+/-- **Impl**: the answers the script gets (the last one is `.abort` if it ended early) -/
+def vscript (c : Cfg) (ops : List VOp) : List Out := vrun c (live ops)
+
+/-- uses of OS-touching members of Go packages (`os`, `os/user`, `syscall`, …) in the bodies of the
+    functions of `os/virtual.go`, `os/nil_file.go`, `os/buffer_file.go`, `os/in_memory_file.go`:
+    (function, members); functions without any are not listed -/
+abbrev VSinks := List (String × List String)
+
+/-- members that are plain constants -/
+def vAllow : List String := ["os.PathSeparator", "os.PathListSeparator"]
+
+def sinkClean (e : String × List String) : Bool := e.2.all (fun m => vAllow.contains m)
+
+/-- the table as reviewed at the pinned commit; `Ties.lean` proves that the one regenerated from the
+    source on this run is equal to it -/
+def reviewedVSinks : VSinks :=
+  [("VirtualOS.PathListSeparator", ["os.PathSeparator"]), ("VirtualOS.PathSeparator", ["os.PathSeparator"])]
+
+/-- the body of method `fn` can reach the real process -/
+def reachesReal (t : VSinks) (fn : String) : Bool := t.any (fun e => e.1 == fn && !sinkClean e)
+
+/-- what the host and the real process have seen when the script is over -/
+structure Host where
+  /-- the calls of the host's exit handler -/
+  handled : List Int
+  /-- content of the host's stdout / stderr files -/
+  stdout : Path
+  stderr : Path
+  /-- the codes with which `VirtualOS.Exit` asked the **real** process to terminate -/
+  realExit : List Int
+  deriving Repr, DecidableEq
+
+/-- **Impl**: `Exit` hands the code to the handler if one is configured; it reaches the real process
+    exactly if its body, as listed in `t`, uses a real-OS sink -/
+def hostView (t : VSinks) (c : Cfg) (ops : List VOp) : Host :=
+  let s := stAfter c.init (live ops)
+  { handled := if c.exitHandler then s.exits else [],
+    stdout := if c.stdout then s.out else [],
+    stderr := if c.stderr then s.err else [],
+    realExit := if reachesReal t "VirtualOS.Exit" then s.exits else [] }
+
+/-! ### Spec, read off the script -/
+
+/-- the codes of the `Exit` calls a script makes -/
+def exitCodes : List VOp → List Int
+  | [] => []
+  | .exit a :: os => a.call.toList ++ exitCodes os
+  | _ :: os => exitCodes os
+
+/-- what a script writes to stdout -/
+def outText : List VOp → Path
+  | [] => []
+  | .stdoutWrite t :: os => t ++ outText os
+  | .print t :: os => t ++ outText os
+  | _ :: os => outText os
+
+/-- what a script writes to stderr -/
+def errText : List VOp → Path
+  | [] => []
+  | .stderrWrite t :: os => t ++ errText os
+  | _ :: os => errText os
 
 end Risor.C12.V
